@@ -43,6 +43,14 @@ def run(chk):
         chk.coverage['seed_late_model_violates_SeededOnly'] = 'SeededOnly' in r2.violated
         if 'SeededOnly' not in r2.violated:
             chk.machinery_error('vacuity: seeding after the first sample should violate SeededOnly')
+    # the first rexpy calls of this process use the less common escaping policy for every (extra letters, dialect) pair:
+    # whatever the module remembers from them must not show in later calls (compared with fresh interpreters below)
+    for x_ in [None, '_', '.-', '_.-', '-', '.']:
+        for d_ in rx.DIALECTS:
+            kw0 = {'dialect': d_, 'full_escape': True}
+            if x_:
+                kw0['extra_letters'] = x_
+            call(['AB-12', 'CD-34', 'x y'], kw0)
     events, detail = [], {}
     n = 2500 if thorough else 450
     tid = 0
@@ -194,6 +202,8 @@ def run(chk):
         if i % 2 == 0:
             ex = rnd.choice([['tel 0131 496 0091', 'tel 0141 555 0123', 'tel 0151 496 0555'], ['a b-1', 'a b-2'], ['x: 1', 'x: 22', 'x: 333']])   # constant fragments with blanks
             kw.pop('strip', None)
+        # an earlier call in this process with the complementary escaping policy (everything else the same) must not matter
+        call(['AB-12', 'CD-34', 'x y'], dict({k_: v_ for k_, v_ in kw.items() if k_ != 'size'}, full_escape=not kw.get('full_escape', False)))
         here, ok = call(list(ex), kw)
         if here['raised'] != 'none':
             continue
